@@ -297,6 +297,18 @@ def _w_set_field(self, op):
     if l is None:
         self.st.count("op.skipped")
         return core.Outcome(True, "skipped")
+    if op.get("inplace") == "line":
+        # the line part of an oriented reference replaced in place: line.<field>[k].line = value
+        def _edit():
+            v = l.get(op["field"])
+            if isinstance(v, list):
+                if not v:
+                    raise gfapy.NotFoundError("empty list")
+                v = v[op.get("idx", 0) % len(v)]
+            if not isinstance(v, gfapy.OrientedLine):
+                raise gfapy.TypeError("not an oriented reference")
+            v.line = op["value"]
+        return core.call(_edit)
     return core.call(l.set, op["field"], op["value"])
 
 
